@@ -822,3 +822,100 @@ class RemoveHook(Contract):
 
 
 CONTRACTS += [ToPattern(), RemoveHook()]
+
+
+class AddHook(Contract):
+    """RadiRouter.add_hook: the hook set of a rule lives in two places - the tree node of the rule's pattern and self.hooks - and
+    both change together, under the pattern parse_rule gives, to the very object the installer returned; when the installer
+    returns None or the set it was given, neither place is written.  The installer is handed the hooks found for this pattern
+    and the caller's arguments unchanged.  The pattern is returned."""
+    props = ('C11',)
+    file = 'ombott/router/radirouter.py'
+    qualname = 'RadiRouter.add_hook'
+    assumptions = ('parse_rule, RadiRouter._match (get_hooks) and RadiDict.add_hooks are callees (tree walks: bounded, C01/C11 cases)',
+                   '1 or 2 wildcards are checked for the params table (comprehension unrolled)')
+    expected_labels = ('installer.given_the_hooks_of_this_pattern_and_the_callers_arguments',
+                       'hooks.tree_and_index_written_together_or_not_at_all', 'post.returns_the_pattern')
+
+    def pre(self, X):
+        self.rule = X.fresh_str('rule')
+        self.pattern = X.fresh_str('pattern')
+        n = 1 + X.choose(2, 'wildcards: 1 | 2')
+        self.pnames = [X.fresh_str(f'p{i}') for i in range(n)]
+        self.filters = [VOpaque(X.fresh(PyObj, f'filter{i}'), 'filter') for i in range(n)]
+        self.a0, self.k0 = VOpaque(X.fresh(PyObj, 'arg0'), 'obj'), VOpaque(X.fresh(PyObj, 'kw0'), 'obj')
+        how = X.choose(2, 'found hooks: None | a set')
+        self.found = NONE if how == 0 else VObj('HookSet', {'tag': 'found'})
+        self.outcome = X.choose(3, 'installer returns: None | what it was given | a new set')
+        self.new = VObj('HookSet', {'tag': 'new'})
+        self.ev = []
+        c = self
+
+        def parse_rule(X, args, kwargs):
+            c.ev.append(('parse_rule', args[-1]))
+            return VTuple([c.pattern, VList(list(c.pnames)), VList(list(c.filters)), VOpaque(X.fresh(PyObj, 'po'), 'po'),
+                           VOpaque(X.fresh(PyObj, 'fo'), 'fo')])
+
+        def _match(X, args, kwargs):
+            ok = len(args) == 1 and set(kwargs) == {'route_pattern', 'get_hooks'} and kwargs['route_pattern'] is c.pattern \
+                and isinstance(kwargs['get_hooks'], VBool) and z3.is_true(z3.simplify(kwargs['get_hooks'].t))
+            c.ev.append(('_match', ok))
+            return c.found
+
+        def installer(X, args, kwargs):
+            a = list(args)
+            if a and isinstance(a[0], VObj) and a[0].cls == 'Router':
+                a = a[1:]
+            ok = len(a) == 2 and a[0] is c.found and a[1] is c.a0 and set(kwargs) == {'kw'} and kwargs['kw'] is c.k0
+            c.ev.append(('installer', ok))
+            return [NONE, c.found, c.new][c.outcome]
+
+        def add_hooks(X, args, kwargs):
+            c.ev.append(('tree.add_hooks', list(args[1:]), dict(kwargs)))
+            return NONE
+        self.hooks = VObj('HooksIndex', {})
+        self.stubs = {'Router.parse_rule': parse_rule, 'Router._match': _match, 'Router.hook_installer': installer,
+                      'Tree.add_hooks': add_hooks}
+        self.me = VObj('Router', {'radidict': VObj('Tree', {}), 'hooks': self.hooks})
+        return {'self': self.me, 'rule': self.rule, 'args': VTuple([self.a0]), 'kwargs': VObj('StrDict', {'kw': self.k0})}
+
+    def setitem_hook(self, X, obj, key, val):
+        if obj is self.hooks:
+            self.ev.append(('hooks.set', key, val))
+            return True
+        return None
+
+    def post(self, X, ret):
+        inst = [e for e in self.ev if e[0] == 'installer']
+        mt = [e for e in self.ev if e[0] == '_match']
+        pr = [e for e in self.ev if e[0] == 'parse_rule']
+        X.prove('installer.given_the_hooks_of_this_pattern_and_the_callers_arguments',
+                z3.BoolVal(len(inst) == 1 and inst[0][1] and len(mt) == 1 and mt[0][1] and len(pr) == 1 and pr[0][1] is self.rule
+                           and self.ev.index(pr[0]) < self.ev.index(mt[0]) < self.ev.index(inst[0])))
+        tw = [e for e in self.ev if e[0] == 'tree.add_hooks']
+        iw = [e for e in self.ev if e[0] == 'hooks.set']
+        if self.outcome == 2:
+            ok = len(tw) == 1 and len(iw) == 1 and not tw[0][2] and len(tw[0][1]) == 3 and tw[0][1][0] is self.pattern \
+                and tw[0][1][1] is self.new and iw[0][1] is self.pattern and iw[0][2] is self.new and self._params_ok(X, tw[0][1][2])
+        else:
+            ok = not tw and not iw
+        X.prove('hooks.tree_and_index_written_together_or_not_at_all', z3.BoolVal(bool(ok)))
+        X.prove('post.returns_the_pattern', z3.BoolVal(ret is self.pattern))
+
+    def _params_ok(self, X, p):
+        """{name: [False, filter]} for the wildcards of the rule, in order"""
+        pairs = getattr(p, 'pairs', None)
+        if pairs is None or len(pairs) != len(self.pnames):
+            return False
+        for (k, v), n, f in zip(pairs, self.pnames, self.filters):
+            if k is not n or not isinstance(v, VList) or len(v.items) != 2 or v.items[1] is not f:
+                return False
+            if not (isinstance(v.items[0], VBool) and z3.is_false(z3.simplify(v.items[0].t))):
+                return False
+        return True
+
+    def post_raise(self, X, exc):
+        X.prove('raises.nothing', z3.BoolVal(False))
+
+
+CONTRACTS += [AddHook()]
